@@ -164,6 +164,9 @@ def translate():
     # shutting_down: a stream is marked as ended only when its request was parsed to the end
     if not re.search(r"if stream\.front\.consumed\s*&& stream\.front\.storage\.is_empty\(\)\s*&& stream\.front\.is_completed\(\)\s*&& stream\.front\.is_terminated\(\)\s*\{\s*stream\.front_received_end_of_stream = true;", ms):
         fails.append("mod.rs: shutting_down marks a stream as having received END_STREAM without requiring the request to be terminated (an upload in flight would be cut)")
+    # drive_frontend_shutdown_io: the forced read runs outside ready(); it serves the backends it armed
+    if not re.search(r"\.readable\(&mut self\.context, EndpointClient\(&mut self\.router\)\)\s*\{\s*MuxResult::Continue => \{\}\s*MuxResult::CloseSession \| MuxResult::Upgrade => return true,\s*\}.{0,700}?for backend in self\.router\.backends\.values_mut\(\) \{\s*if backend\.readiness\(\)\.filter_interest\(\)\.is_writable\(\) \{\s*let _ = backend\.writable\(&mut self\.context, EndpointServer\(&mut self\.frontend\)\);", ms, re.S):
+        fails.append("mod.rs: drive_frontend_shutdown_io no longer writes out what its forced frontend read queued for the backends (no epoll edge follows for bytes already read: the request in flight waits for the shutdown deadline)")
     lines = ["(* GENERATED by props/c15.py:translate from /repo/lib/src/protocol/mux — do not edit. *)",
              "From Coq Require Import NArith List.", "Import ListNotations.", "Open Scope N_scope.", ""]
     for k in PARSER_CONSTS + H2_CONSTS + ["FLOOD_WINDOW_MS", "MAX_LOOP_ITERATIONS"]:
